@@ -39,15 +39,7 @@ func TestReplay(t *testing.T) { ev.RunReplay(t, judges) }
 
 // localExcluded lists the exclusion tags of the findings filed under
 // /verif/known/C19-*.json until they are listed in known_findings.json.
-var localExcluded = map[string]bool{
-	"wgsl.blankspace.exotic":        true, // C19-1
-	"wgsl.linecomment.cr":           true, // C19-2
-	"wgsl.linecomment.exotic-break": true, // C19-2 (same root cause: only U+000A ends a line comment)
-	"wgsl.template.gteq":            true, // C19-3
-	"wgsl.const_assert.paren":       true, // C19-4
-	"wgsl.template.trailing-comma":  true, // C19-5
-	"wgsl.bitcast.trailing-comma":   true, // C19-6
-}
+var localExcluded = map[string]bool{}
 
 // classTag maps an edit class of package meta to the exclusion tag of the
 // finding that covers it.
